@@ -110,6 +110,7 @@ func (s *mvSpec) keys() []string {
 // ---------------------------------------------------------------- session
 
 type mvTxn struct {
+	reads   map[string]bool // keys read through Get / iterator items / Seek (update txns)
 	t       *badger.Txn
 	update  bool
 	readTs  uint64
@@ -390,7 +391,7 @@ func execMvcc(intents []string, st *Stats) (final, outs, oracle []string) {
 				t = s.db.NewTransaction(upd)
 			}
 			badger.VerifSyncMarks(s.db)
-			s.txns[id] = &mvTxn{t: t, update: upd, readTs: t.ReadTs(), pending: map[string]specVer{}}
+			s.txns[id] = &mvTxn{t: t, update: upd, readTs: t.ReadTs(), pending: map[string]specVer{}, reads: map[string]bool{}}
 			emit(line, fmt.Sprintf("ok %d", t.ReadTs()))
 		case "set":
 			// set id key meta umeta exp val ver
@@ -473,6 +474,9 @@ func execMvcc(intents []string, st *Stats) (final, outs, oracle []string) {
 			}
 			emit(line, out)
 			if !tx.done && len(key) > 0 {
+				if _, own := tx.pending[string(key)]; !own {
+					tx.reads[string(key)] = true
+				}
 				s.judgeGet(tx, key, out, fail)
 			}
 		case "iter":
@@ -499,6 +503,18 @@ func execMvcc(intents []string, st *Stats) (final, outs, oracle []string) {
 			} else {
 				err = tx.t.Commit()
 			}
+			// C02 oracle: was a key this transaction read written by a commit after its read ts?
+			conflictDue := ""
+			if tx.update && !tx.done && len(tx.pending) > 0 {
+				dnow := badger.VerifDiscardTs(s.db)
+				for k := range tx.reads {
+					for _, v := range s.spec.hist[k] {
+						if v.ver > tx.readTs && (!s.managed || v.ver > dnow) {
+							conflictDue = fmt.Sprintf("key %s read at ts %d was written at ts %d", hx([]byte(k)), tx.readTs, v.ver)
+						}
+					}
+				}
+			}
 			badger.VerifSyncMarks(s.db)
 			// a full memtable is rotated (and flushed by the background flusher) BEFORE this
 			// commit's entries are written: report that flush ahead of the commit line
@@ -519,6 +535,9 @@ func execMvcc(intents []string, st *Stats) (final, outs, oracle []string) {
 					s.spec.add([]byte(k), sv)
 				}
 				emit(line, fmt.Sprintf("ok %d", ts))
+				if conflictDue != "" && len(s.spec.dropFloor) == 0 {
+					fail("C02-conflict-missed", "Commit returned nil although "+conflictDue)
+				}
 				if !s.managed {
 					if ts <= s.lastCts {
 						fail("C03-ts-order", fmt.Sprintf("commit ts %d not above previous %d", ts, s.lastCts))
@@ -1062,6 +1081,9 @@ func (s *mvSess) iterate(tx *mvTxn, kv map[string]string, fail func(string, stri
 		it.Rewind()
 	} else {
 		it.Seek(unhx(seek))
+		if len(unhx(seek)) > 0 {
+			tx.reads[string(unhx(seek))] = true
+		}
 	}
 	var items []string
 	type got struct {
@@ -1077,6 +1099,7 @@ func (s *mvSess) iterate(tx *mvTxn, kv map[string]string, fail func(string, stri
 		}
 		items = append(items, f)
 		gots = append(gots, got{append([]byte{}, item.Key()...), item.Version()})
+		tx.reads[string(item.Key())] = true
 		if len(items) > 10000 {
 			break
 		}
@@ -1310,9 +1333,85 @@ func genMvccSession(rng *rand.Rand, st *Stats) []string {
 		rng.Read(v)
 		return v
 	}
+	keyMax := map[string]uint64{}   // managed mode: highest version (possibly) written per key
+	txnKeys := map[int][]string{} // keys set by each generated transaction
 	for i := 0; i < nops; i++ {
 		r := rng.Intn(100)
 		switch {
+		case r < 1 && len(keys) >= 3:
+			// drop scenario: everything compacted to a level >= 1, then DropPrefix of the smallest
+			// and the biggest key (a table whose two ends carry different dropped prefixes)
+			for _, id := range open {
+				ops = append(ops, fmt.Sprintf("discard %d", id))
+			}
+			open = nil
+			rts := uint64(0)
+			if managed {
+				rts = math.MaxUint64
+			}
+			ops = append(ops, fmt.Sprintf("begin %d 1 %d", nextID, rts))
+			sk := append([][]byte{}, keys...)
+			sort.Slice(sk, func(a, b int) bool { return bytes.Compare(sk[a], sk[b]) < 0 })
+			for _, k := range sk {
+				ops = append(ops, fmt.Sprintf("set %d %s 0 1 0 %s 0", nextID, hx(k), hx(genVal())))
+			}
+			c := uint64(0)
+			if managed {
+				cts++
+				c = cts
+				for _, k := range sk {
+					keyMax[string(k)] = c
+				}
+			}
+			ops = append(ops, fmt.Sprintf("commit %d %d", nextID, c), "flush", "compact this=0 id=1 adj=1.5")
+			nextID++
+			ops = append(ops, fmt.Sprintf("dropprefix %s %s", hx(sk[0]), hx(sk[len(sk)-1])))
+		case r < 2:
+			// split scenario: many small tables on the base level, then new versions (or deletes)
+			// of every key in one L0 table: the L0->Lbase compaction is split into sub-compactions
+			// whose boundaries fall on bottom-table boundaries
+			rts := uint64(0)
+			if managed {
+				rts = math.MaxUint64
+			}
+			var wk [][]byte
+			for j := 0; j < 10; j++ {
+				wk = append(wk, []byte{0x70, byte(0x30 + j)})
+			}
+			for round := 0; round < 2; round++ {
+				for g := 0; g < len(wk); g += 2 {
+					ops = append(ops, fmt.Sprintf("begin %d 1 %d", nextID, rts))
+					for _, k := range wk[g : g+2] {
+						v := make([]byte, 300)
+						rng.Read(v)
+						if round == 1 && rng.Intn(2) == 0 {
+							ops = append(ops, fmt.Sprintf("set %d %s 1 0 0 - 0", nextID, hx(k)))
+						} else {
+							ops = append(ops, fmt.Sprintf("set %d %s 0 2 0 %s 0", nextID, hx(k), hx(v)))
+						}
+					}
+					c := uint64(0)
+					if managed {
+						cts++
+						c = cts
+						for _, k := range wk[g : g+2] {
+							keyMax[string(k)] = c
+						}
+					}
+					ops = append(ops, fmt.Sprintf("commit %d %d", nextID, c))
+					nextID++
+					if round == 0 {
+						ops = append(ops, "flush", "compact this=0 id=1 adj=1.5")
+					}
+				}
+				if round == 1 {
+					for _, id := range open {
+						ops = append(ops, fmt.Sprintf("discard %d", id))
+					}
+					open = nil
+					ops = append(ops, "flush", "compact this=0 id=1 adj=1.5")
+				}
+			}
 		case r < 14 || len(open) == 0:
 			if len(open) >= 4 {
 				continue
@@ -1359,6 +1458,7 @@ func genMvccSession(rng *rand.Rand, st *Stats) []string {
 				k = pick(rng, []byte{}, []byte("!badger!x"), []byte("!badger!"))
 			}
 			ops = append(ops, fmt.Sprintf("set %d %s %d %d %d %s 0", id, hx(k), meta, um, exp, hx(v)))
+			txnKeys[id] = append(txnKeys[id], string(k))
 		case r < 57:
 			id := open[rng.Intn(len(open))]
 			ops = append(ops, fmt.Sprintf("get %d %s", id, hx(keys[rng.Intn(len(keys))])))
@@ -1367,8 +1467,26 @@ func genMvccSession(rng *rand.Rand, st *Stats) []string {
 			id := open[j]
 			c := uint64(0)
 			if managed {
-				cts++
-				c = cts
+				// commit timestamps are the caller's: mostly increasing, sometimes below earlier
+				// ones (never below the discard timestamp, never at or below a version this
+				// transaction's keys already have: badger's documented per-key contract)
+				low := disc + 1
+				for _, k := range txnKeys[id] {
+					if keyMax[k]+1 > low {
+						low = keyMax[k] + 1
+					}
+				}
+				if low < cts && rng.Intn(3) == 0 {
+					c = low + uint64(rng.Intn(int(cts-low)))
+				} else {
+					cts++
+					c = cts
+				}
+				for _, k := range txnKeys[id] {
+					if c > keyMax[k] {
+						keyMax[k] = c
+					}
+				}
 			}
 			ops = append(ops, fmt.Sprintf("commit %d %d", id, c))
 			open = append(open[:j], open[j+1:]...)
@@ -1432,11 +1550,15 @@ func genMvccSession(rng *rand.Rand, st *Stats) []string {
 						meta = 4
 					}
 					ops = append(ops, fmt.Sprintf("set %d %s %d %d %d %s 0", nextID, hx(k), meta, um, exp, hx(v)))
+					txnKeys[nextID] = append(txnKeys[nextID], string(k))
 				}
 				c := uint64(0)
 				if managed {
 					cts++
 					c = cts
+					for _, k := range txnKeys[nextID] {
+						keyMax[k] = c
+					}
 				}
 				ops = append(ops, fmt.Sprintf("commit %d %d", nextID, c))
 				nextID++
@@ -1471,6 +1593,7 @@ func genMvccSession(rng *rand.Rand, st *Stats) []string {
 				if managed {
 					cts++
 					c = cts
+					keyMax[string(k)] = c
 				}
 				ops = append(ops, fmt.Sprintf("commit %d %d", nextID, c))
 				nextID++
